@@ -771,6 +771,7 @@ class Ctx:
         self.obligations = []  # (label, status, seconds)
         self.violations = []
         self.notes = []
+        self.xchecks = []
         self.solver_time = 0.0
         self.solver_calls = 0
         self.unknown_feas = 0
@@ -1035,7 +1036,41 @@ class Ctx:
                 vals[name] = str(x)
         return vals
 
-    def _solve_neg(self, f, logic=None, timeout=OBL_TIMEOUT_MS):
+    def _xcheck(self, label, solver, status):
+        """second-solver cross-check of a sample of decided obligations: the very query is dumped as
+        SMT-LIB2 and re-decided by /usr/bin/z3 (4.8.12) and the cvc5 binary; a definite disagreement is
+        a harness error, a timeout/unknown/error there is recorded as inconclusive."""
+        if label is None or status not in ("sat", "unsat") or XCHECK_PER_LABEL <= 0:
+            return
+        n = XCHECK_DONE.get(label, 0)
+        if n >= XCHECK_PER_LABEL:
+            return
+        XCHECK_DONE[label] = n + 1
+        import subprocess
+        import tempfile
+
+        try:
+            text = solver.to_smt2()
+        except Exception:  # noqa
+            return
+        body = "\n".join(l for l in text.splitlines() if not l.startswith("(set-logic") and not l.startswith("(set-info"))
+        res = {}
+        for name, cmd, pre in (("z3-4.8.12", ["/usr/bin/z3", "-T:15"], ""), ("cvc5-1.0.3", ["cvc5", "--tlimit=15000"], "(set-logic ALL)\n")):
+            try:
+                with tempfile.NamedTemporaryFile("w", suffix=".smt2", delete=True) as fh:
+                    fh.write(pre + body + "\n")
+                    fh.flush()
+                    out = subprocess.run(cmd + [fh.name], capture_output=True, text=True, timeout=40).stdout
+                first = out.strip().splitlines()[0].strip() if out.strip() else "none"
+                if "(error" in out or first not in ("sat", "unsat"):
+                    res[name] = "inconclusive"
+                else:
+                    res[name] = "agree" if first == status else "DISAGREE"
+            except Exception:  # noqa
+                res[name] = "inconclusive"
+        self.xchecks.append((label, status, res))
+
+    def _solve_neg(self, f, logic=None, timeout=OBL_TIMEOUT_MS, label=None):
         """is pc AND NOT f satisfiable?  returns (status, model)"""
         t = time.time()
         neg = z3.Not(f)
@@ -1073,9 +1108,11 @@ class Ctx:
                 continue
             if r == "sat":
                 status, model = "sat", s.model()
+                self._xcheck(label, s, "sat")
                 break
             if r == "unsat":
                 status = "unsat"
+                self._xcheck(label, s, "unsat")
                 break
         self.solver_time += time.time() - t
         return status, model
@@ -1100,7 +1137,7 @@ class Ctx:
             self.violations.append(Violation(label, _fmt(detail), vals, sig=sig))
             return False
         f = _b(cond)
-        st, m = self._solve_neg(f, logic, timeout or OBL_TIMEOUT_MS)
+        st, m = self._solve_neg(f, logic, timeout or OBL_TIMEOUT_MS, label=label)
         if st == "unknown" and fallback is not None:
             # the direct query timed out: decide the goal from already discharged lemmas instead
             if fallback() == "unsat":
@@ -1203,6 +1240,8 @@ class Ctx:
 
 TWIN_STATE = {}
 TWIN_TRIES = 25
+XCHECK_DONE = {}
+XCHECK_PER_LABEL = int(os.environ.get("SYMX_XCHECK", "1"))
 
 
 def _fmt(d):
